@@ -245,9 +245,10 @@ class DashValidator(DashElement):
             age = self.manifest.publishTime - self.prev_manifest.publishTime
             fmt = (r'Manifest should have updated by now. minimumUpdatePeriod is {0} but ' +
                    r'manifest has not been updated for {1} seconds')
-            self.attrs.check_less_than(
-                age, 3 * self.manifest.minimumUpdatePeriod,
-                fmt.format(self.manifest.minimumUpdatePeriod, age.total_seconds()))
+            if self.manifest.minimumUpdatePeriod is not None:
+                self.attrs.check_less_than(
+                    age, 3 * self.manifest.minimumUpdatePeriod,
+                    fmt.format(self.manifest.minimumUpdatePeriod, age.total_seconds()))
         await self.manifest.validate()
         if self.options.save and self.options.prefix:
             kids = set()
@@ -306,7 +307,15 @@ class DashValidator(DashElement):
             return
         if not self.elt.check_not_none(self.manifest):
             return
-        next_refresh = self.manifest.publishTime + self.manifest.minimumUpdatePeriod
+        if self.manifest.minimumUpdatePeriod is not None:
+            next_refresh = self.manifest.publishTime + self.manifest.minimumUpdatePeriod
+        else:
+            # MPD@minimumUpdatePeriod is optional. Without it there is no schedule
+            # for the next refresh, so poll again after the minimum buffer time
+            wait = self.manifest.minBufferTime
+            if wait is None:
+                wait = datetime.timedelta(seconds=2)
+            next_refresh = self.manifest.now() + wait
         self.log.debug(
             'publishTime=%s minimumUpdatePeriod=%s nextUpdate=%s',
             self.manifest.publishTime, self.manifest.minimumUpdatePeriod,
